@@ -232,7 +232,20 @@ def r2_rm(ctx, F):
     ok = g1 is not None and g0 is not None and b.can_reach(c_rm.bb, c_w.bb) and not b.can_reach(c_w.bb, c_rm.bb)
     wv = vf.VF(wcl[0], inline_depth=0)
     cw = [c for c in live_calls(wcl[0]) if c.name == "create_whiteout"]
-    ok = ok and len(cw) == 1 and R(wv.call_args(cw[0])[2], wcl[0], wv) == "String::as_str(^sname)"
+    # the name handed to create_whiteout is the removed name: resolve the closure's capture in do_rm (local names are irrelevant)
+    cle = None
+    for c_ in live_calls(b):
+        for a_ in v.call_args(c_):
+            for x_ in vf.walk(a_):
+                if x_[0] == "CL" and x_[1] == wcl[0].key:
+                    cle = x_
+    if cle is not None and len(cw) == 1:
+        bv_ = vf.VF(wcl[0], inline_depth=0, params={1: cle})
+        bv_.render_body = b
+        wname = vf.render(bv_.call_args(cw[0])[2], b, short=True, vfx={wcl[0].key: bv_, b.key: v})
+    else:
+        wname = None
+    ok = ok and len(cw) == 1 and wname == "String::as_str(T::to_string(CStr::to_string_lossy(name)))"
     ok = ok and [c for c in live_calls(wcl[0]) if c.name == "insert_child"] and [c for c in live_calls(wcl[0]) if c.name == "insert_inode"]
     # guarded by need_whiteout: the switch that dominates the call reads the local
     sw_ok = False
